@@ -251,7 +251,7 @@ Section MachineProofs.
     intro Hinv. destruct o as [main glob syn_ok| | | | |ok|ok| |]; unfold step.
     - (* Begin *)
       set (n := s_next s).
-      set (newc := {| c_id := n; c_global := glob; c_frames := []; c_phase := Loading; c_mids := []; c_objs := [] |}).
+      set (newc := {| c_id := n; c_global := glob; c_frames := []; c_phase := Loading; c_mids := []; c_objs := []; c_trace := [] |}).
       assert (Hctxs : inv' (s_cls s) (if main then newc :: s_ctxs s else s_ctxs s)).
       { destruct main; [|exact Hinv]. destruct Hinv as [Hc [Hs [Hf Hm]]]. split; [|split; [|split]].
         - cbn [nrep newc c_frames]. unfold nrep_f. cbn. exact Hc.
@@ -366,7 +366,8 @@ Section MachineProofs.
       destruct (c_phase c) as [|[|x cur]|] eqn:Eph; try exact Hinv.
       unfold inv in Hinv. rewrite Ectxs in Hinv. destruct Hinv as [Hc [Hs [Hf Hm]]].
       set (c' := {| c_id := c_id c; c_global := c_global c; c_frames := c_frames c;
-                    c_phase := Ending cur; c_mids := c_mids c; c_objs := c_objs c |}).
+                    c_phase := Ending cur; c_mids := c_mids c; c_objs := c_objs c;
+                    c_trace := KInit (c_id c) x :: c_trace c |}).
       assert (H1 : inv' (cls_pop x (s_cls s)) (c' :: rest)).
       { split; [|split; [|split]].
         - cbn [cls_pop k_count]. rewrite Hc. reflexivity.
@@ -381,7 +382,8 @@ Section MachineProofs.
       destruct (s_ctxs s) as [|c rest] eqn:Ectxs; [exact Hinv|].
       unfold inv in Hinv. rewrite Ectxs in Hinv.
       set (c' := {| c_id := c_id c; c_global := c_global c; c_frames := c_frames c;
-                    c_phase := Processing; c_mids := c_mids c; c_objs := c_objs c |}).
+                    c_phase := Processing; c_mids := c_mids c; c_objs := c_objs c;
+                    c_trace := KProc (c_id c) :: c_trace c |}).
       assert (H1 : (c_phase c = Ending [] \/ c_phase c = Processing) -> inv' (s_cls s) (c' :: rest)).
       { intro Hph. destruct Hinv as [Hc [Hs [Hf Hm]]]. split; [|split; [|split]].
         - rewrite Hc. reflexivity.
